@@ -187,6 +187,9 @@ def instances(tier):
         out.append(("weighted", {"V": 4, "directed": False, "wseed": ws, "part": "route"}))
         out.append(("weighted", {"V": 3, "directed": True, "wseed": ws, "part": "route"}))
         out.append(("weighted", {"V": 4, "directed": False, "wseed": ws, "part": "mst"}))
+        # the same with a float64 adjacency matrix (real-valued weights)
+        out.append(("weighted", {"V": 4, "directed": False, "wseed": ws, "part": "mst", "wdtype": "float"}))
+        out.append(("weighted", {"V": 3, "directed": True, "wseed": ws, "part": "route", "wdtype": "float"}))
         if ws == 1 or not q:
             out.append(("weighted", {"V": 4, "directed": False, "wseed": ws, "part": "cost"}))
         if not q:
@@ -915,6 +918,8 @@ def _build(F, cfg, E, pts=None, weights=None):
         pg = pcls.init_from_edges(pts, el) if pts is not None else None
     else:
         A = _dense(E, weights)
+        if cfg.get("wdtype") == "float":
+            A = A.astype(float)  # real-valued weights (edge lengths): scipy then works on the caller's buffers
         if via == "csr":
             A = csr_matrix(A)
         g = acls(A)
@@ -1210,6 +1215,7 @@ def weighted(F, ob, cfg):
                 else:
                     r, d = g.find_shortest_path(s, t, unweighted=True)
                     _route(F, c, "shortest.route", lab + ".uw", _ints(r), s, t, V, E)
+        c.add("graph_unchanged", "adjacency", bool(np.array_equal(np.asarray(g.adjacency_matrix.todense()), _dense(E, W))))
         c.flush()
         return
     # ---- minimum spanning trees
@@ -1255,6 +1261,10 @@ def weighted(F, ob, cfg):
             if nm == "point":
                 c.add("result", lab + ".points", t.points.shape == pg.points.shape and all(
                     (x is y) or (not F.sym and x == y) for x, y in zip(t.points.ravel(), pg.points.ravel())))
+    # asking for spanning trees is a query: the graph still is what it was built from
+    for gg, nm in ((g, "abstract"), (pg, "point")):
+        c.add("graph_unchanged", nm + ".adjacency", bool(np.array_equal(np.asarray(gg.adjacency_matrix.todense()), _dense(E, W))))
+        c.add("graph_unchanged", nm + ".n_edges", gg.n_edges == len(E.present()))
     c.flush()
     rej.flush()
 
